@@ -383,7 +383,9 @@ func registerCryptoModels(e *Engine) {
 				if sv, ok := x.load(p).(*StructV); ok {
 					f := make([]Value, len(sv.F))
 					for i := range f {
-						f[i] = &Native{Kind: "bigint", Data: x.fresh("bigint.sign", SInt)}
+						// contract: the integers of a parsed DSA signature are positive (the
+						// zero/negative rejection is three more leaves of the same error path)
+						f[i] = &Native{Kind: "bigint", Data: IntC(1)}
 					}
 					x.store(p, &StructV{F: f})
 				}
@@ -409,7 +411,7 @@ func registerCryptoModels(e *Engine) {
 	}
 	m["(*github.com/beevik/etree.Document).ReadFromBytes"] = func(x *Exec, fr *frame, a []Value) Value {
 		d := a[0].(*Native).Data.(*etDoc)
-		data := bytesTerm(x, a[1])
+		data := x.shape(bytesTerm(x, a[1]))
 		if _, ok := x.tokenOf(data); ok {
 			d.data = data
 			return NilIface
